@@ -80,6 +80,13 @@ class World(object):
     self.locker = None
     self.full_applied = False
     self.step_budget = 200      # x 100000 SQLite VM steps per statement
+    self.retain_connections = False
+    self.retained = []
+
+  def release(self):
+    for p in self.retained:
+      p.close()
+    self.retained = []
 
   def fault_at(self, kind, k):
     for f in self.faults:
@@ -167,7 +174,10 @@ class Proxy(object):
           st.result = ([d[0] for d in cur.description], [list(x) for x in rows])
           result = (cur.description, rows)
         else:
-          self.c.executescript(sql)
+          # one statement of a script: the caller (executescript below) has put the connection
+          # into sqlite3_exec semantics (no implicit BEGIN), so explicit BEGIN/COMMIT in the
+          # script keep their meaning across statements
+          self.c.execute(sql)
           result = None
       except MemoryError:
         st.error = 'TooExpensive'
@@ -225,8 +235,21 @@ class Proxy(object):
     return Result(desc, rows)
 
   def executescript(self, script):
-    for s in split_statements(script):
-      self._run_one(s, fetch=False)
+    # sqlite3.Connection.executescript: COMMIT a pending transaction, then run the statements
+    # with no implicit transaction control.  Mirrored statement by statement so that faults
+    # can land between two statements of one script.
+    if self.c.in_transaction:
+      self.c.commit()
+    old = self.c.isolation_level
+    self.c.isolation_level = None
+    try:
+      for s in split_statements(script):
+        self._run_one(s, fetch=False)
+    finally:
+      try:
+        self.c.isolation_level = old
+      except sqlite3.Error:
+        pass
 
   def close(self):
     if not self.closed:
@@ -289,6 +312,12 @@ class Installed(object):
 
   def __exit__(self, *a):
     self.mod.SqliteConnect = self.orig
+    if self.world.retain_connections and a and a[0] is not None:
+      # the failed run's connection stays referenced (an exception kept by a notebook or a
+      # test harness keeps it alive); the caller releases it later with world.release()
+      self.world.retained.extend(self.proxies)
+      self.proxies = []
+      return False
     for p in self.proxies:
       p.close()
     return False
